@@ -29,15 +29,39 @@ def skipWs : Nat → Str → Str
 
 def ws (s : Str) : Str := skipWs s.length s
 
-/-- a double-quoted literal with `\` escapes; returns (content, rest) -/
+def hexVal (c : Char) : Option Nat :=
+  if '0'.toNat ≤ c.toNat && c.toNat ≤ '9'.toNat then some (c.toNat - '0'.toNat)
+  else if 'a'.toNat ≤ c.toNat && c.toNat ≤ 'f'.toNat then some (c.toNat - 'a'.toNat + 10)
+  else if 'A'.toNat ≤ c.toNat && c.toNat ≤ 'F'.toNat then some (c.toNat - 'A'.toNat + 10)
+  else none
+
+inductive LitMode where
+  | normal
+  | hex (n : Nat)          -- inside `\u{..}`, value so far
+
+/-- `\n`, `\r`, `\t`, `\0`; any other escaped character stands for itself -/
+def unescChar (c : Char) : Char :=
+  if c = 'n' then '\n' else if c = 'r' then '\r' else if c = 't' then '\t' else if c = '0' then Char.ofNat 0 else c
+
+/-- the body of a double-quoted literal with JavaScript's `\` escapes (`\"`, `\\`, `\n`, `\r`, `\t`, `\0`,
+`\u{..}`): (decoded content, rest after the closing quote) -/
+def litBody : LitMode → Str → Str → Option (Str × Str)
+  | .normal, acc, '"' :: r => some (acc.reverse, r)
+  | .normal, acc, '\\' :: 'u' :: '{' :: r => litBody (.hex 0) acc r
+  | .normal, acc, '\\' :: 'x' :: a :: b :: r =>
+    match hexVal a, hexVal b with
+    | some x, some y => litBody .normal (Char.ofNat (x * 16 + y) :: acc) r
+    | _, _ => none
+  | .normal, acc, '\\' :: c :: r => litBody .normal (unescChar c :: acc) r
+  | .normal, acc, c :: r => litBody .normal (c :: acc) r
+  | .hex n, acc, '}' :: r => litBody .normal (Char.ofNat n :: acc) r
+  | .hex n, acc, c :: r => match hexVal c with
+    | some d => litBody (.hex (n * 16 + d)) acc r
+    | none => none
+  | _, _, [] => none
+
 def strLit : Str → Option (Str × Str)
-  | '"' :: rest =>
-    let rec go : Str → Str → Option (Str × Str)
-      | _, [] => none
-      | acc, '"' :: r => some (acc.reverse, r)
-      | acc, '\\' :: c :: r => go (c :: acc) r
-      | acc, c :: r => go (c :: acc) r
-    go [] rest
+  | '"' :: rest => litBody .normal [] rest
   | _ => none
 
 def ident (s : Str) : Option (Str × Str) :=
